@@ -136,9 +136,10 @@ def rand_problem(rng, shp):
         data[0] = 2
     sparse = rng.random() < 0.35
     if sparse:          # a sparse tensor without zeros cannot be sampled at all (finding C13-S1): keep two zeros here
-        data[1] = data[2] = 0
-        if not any(data):
-            data[0] = 2
+        for k in range(1, n, 2):
+            data[k] = 0
+        data[2 % n] = 0
+        data[0] = data[0] or 2
     fac = [[[rng.randint(1, 8) / 4.0 for _ in range(R)] for _ in range(d)] for d in shp]
     return {"shape": list(shp), "data": data, "R": R, "init": fac, "obj": obj, "seed": rng.randrange(10 ** 6),
             "sparse": sparse, "fs": rng.randint(2, 6), "gs": rng.randint(1, 4)}
